@@ -138,6 +138,33 @@ def snap(lObjects, ci, ser):
     return [(ser.of(o), ci.of(o), o.value, tuple(o.code_tags)) for o in lObjects]
 
 
+def jsonable_action(a, ci, depth=0):
+    """violation action / rule parameter as plain data: tokens -> {"tok": [cls, value]},
+    token classes -> {"cls": idx}"""
+    import inspect
+
+    if a is None or isinstance(a, (bool, int, str)):
+        return a
+    if depth > 4:
+        return {"repr": repr(a)[:80]}
+    if isinstance(a, dict):
+        return {str(k): jsonable_action(v, ci, depth + 1) for k, v in a.items()}
+    if isinstance(a, (list, tuple)):
+        return [jsonable_action(v, ci, depth + 1) for v in a]
+    if isinstance(a, vparser.item):
+        return {"tok": [ci.of(a), a.get_value()]}
+    if inspect.isclass(a):
+        return {"cls": ci.by_name.get(a.__module__ + "." + a.__qualname__, -1)}
+    return {"repr": repr(a)[:80]}
+
+
+STD_ATTRS = {"name", "identifier", "unique_id", "solution", "violations", "had_violations", "phase", "subphase", "disable", "fixable", "severity", "user_error_message", "debug", "dFix", "configuration", "deprecated", "proposed", "groups", "options", "configuration_documentation_link", "prerequisites", "remap", "fix", "analyze", "_get_tokens_of_interest"}
+
+
+def rule_params(oRule, ci):
+    return {k: jsonable_action(v, ci) for k, v in oRule.__dict__.items() if k not in STD_ATTRS}
+
+
 def raw(lObjects):
     """cheap snapshot: holds the objects themselves (identity comparison, keeps them alive)"""
     return [(o, o.value) for o in lObjects]
@@ -163,7 +190,7 @@ class Step:
         self.remap = None
 
 
-def instrumented_fix(oFile, rl, ci, fix_phase=7, skip_phase=None, fix_only=None, record_tois=False, on_step=None):
+def instrumented_fix(oFile, rl, ci, fix_phase=7, skip_phase=None, fix_only=None, record_tois=False, on_step=None, harvest=False):
     """Runs the real rule_list.fix with every rule's fix/analyze and the file's update wrapped.
     Returns the list of Steps (one per rule.fix / rule.analyze call, plus the post-phase-1
     normalisation as a pseudo step).  `before` of a step is the `after` of the previous one
@@ -188,6 +215,7 @@ def instrumented_fix(oFile, rl, ci, fix_phase=7, skip_phase=None, fix_only=None,
                         "line": v.get_line_number(),
                         "new": snap(ot.get_tokens(), ci, ser),
                         "action": repr(v.get_action())[:200],
+                        "action_data": jsonable_action(v.get_action(), ci) if harvest else None,
                         "solution": v.get_solution(),
                     }
                 )
